@@ -2,6 +2,7 @@ SPECIFICATION Spec
 CONSTANTS
   MaxLen = 6
   Design = "append_first"
+  Alphabet = {"x", "n", "f"}
 INVARIANT Refines
 INVARIANT RefinesEverywhere
 INVARIANT OneBased
